@@ -95,8 +95,9 @@ def short(v):
 # ------------------------------------------------------------------ scenarios
 @st.composite
 def scenario_st(draw):
-    kind = draw(st.sampled_from(["slice", "slice", "three-d", "strand", "set-tabbook",
-                                 "set-ca0", "set-numeric"]))
+    kind = draw(st.sampled_from(["slice", "slice", "three-d", "strand", "multi", "multi",
+                                 "shared-insertions", "shared-insertions",
+                                 "set-tabbook", "set-ca0", "set-numeric"]))
     n = draw(S.n_st(16))
     weights = draw(S.weights_st(n, ("none", "int", "dyadic")))
     svars = {}
@@ -127,6 +128,25 @@ def scenario_st(draw):
             qd["measure"] = {"var": "x", "stats": ["mean", "sum"],
                              "valid_counts": draw(st.booleans())}
         queries = [qd]
+    elif kind == "shared-insertions":
+        # two categorical variables over the SAME category ids (different ones flagged
+        # missing) whose dimensions are given one and the same insertion list object
+        for alias in ("s0", "s1"):
+            var = draw(S.cat_var_st(alias, n, flavour="cat", min_valid=2, max_valid=4,
+                                    allow_order_key=False))
+            ids = list(range(1, len(var["cats"]) + 1))
+            remap = {c["id"]: i for c, i in zip(var["cats"], ids)}
+            for c in var["cats"]:
+                c["id"] = remap[c["id"]]
+            var["answers"] = [remap[a] for a in var["answers"]]
+            svars[alias] = var
+        queries = [{"dims": [{"var": "s0"}, {"var": "s1"}], "weighted": weighted}]
+    elif kind == "multi":
+        # two unrelated 2-D cubes; the machine may build cube j with the transforms
+        # object of cube j' (re-use of an already used transforms dict on other data)
+        for j in range(2):
+            dims = [arr_or_cat("m%d_%d" % (j, i)) for i in range(2)]
+            queries.append({"dims": dims, "weighted": weighted})
     elif kind == "set-tabbook":
         r = arr_or_cat("r")
         cols = [arr_or_cat("c%d" % j) for j in range(draw(st.integers(1, 2)))]
@@ -189,6 +209,21 @@ def scenario_st(draw):
                 tx[name] = t
         txs.append(tx)
     sc["transforms"] = txs
+    # the caller may use ONE insertion list object for both dimensions
+    if kind == "shared-insertions":
+        pool = [1, 2, 3, 4, 5]
+        ins = draw(xforms.insertions_st(pool, [], max_ins=3, min_ins=1, allow_malformed=False,
+                                        with_id=draw(st.sampled_from([False, False, None]))))
+        txs[0].setdefault("rows_dimension", {})["insertions"] = ins
+        txs[0].setdefault("columns_dimension", {})["insertions"] = copy.deepcopy(ins)
+        sc["alias_insertions"] = True
+        return sc
+    sc["alias_insertions"] = draw(st.booleans())
+    if sc["alias_insertions"] and draw(st.booleans()):
+        for tx in txs:
+            for d in tx.values():
+                for ins in d.get("insertions", []) if isinstance(d, dict) else []:
+                    ins.pop("id", None)
     return sc
 
 
@@ -206,34 +241,35 @@ class Reference:
         self.is_set = sc["kind"].startswith("set-")
         self.cache = {}
 
-    def _fresh_partitions(self, j):
+    def _fresh_partitions(self, j, tj=None):
         sc = self.sc
+        tj = j if tj is None else tj
         if self.is_set:
-            cs = lib.CubeSet(copy.deepcopy(self.resps), copy.deepcopy(sc["transforms"]),
+            cs = lib.CubeSet(copy.deepcopy(self.resps), _reference_transforms(sc),
                              sc["population"], sc["mask_size"])
             return [ps[j] for ps in cs.partition_sets]
         return lib.Cube(copy.deepcopy(self.resps[j]),
-                        transforms=copy.deepcopy(sc["transforms"][j]),
+                        transforms=_reference_transforms(sc)[tj],
                         population=sc["population"], mask_size=sc["mask_size"]).partitions
 
-    def n_partitions(self, j):
-        key = ("n", j)
+    def n_partitions(self, j, tj=None):
+        key = ("n", j, tj)
         if key not in self.cache:
-            self.cache[key] = _safe(lambda: len(self._fresh_partitions(j)))
+            self.cache[key] = _safe(lambda: len(self._fresh_partitions(j, tj)))
         return self.cache[key]
 
-    def value(self, j, k, out):
-        key = (j, k, json.dumps(out))
+    def value(self, j, k, out, tj=None):
+        key = (j, tj, k, json.dumps(out))
         if key not in self.cache:
-            self.cache[key] = _safe(lambda: read_output(self._fresh_partitions(j)[k], out))
+            self.cache[key] = _safe(lambda: read_output(self._fresh_partitions(j, tj)[k], out))
         return self.cache[key]
 
-    def cube_value(self, j, prop):
-        key = ("cube", j, prop)
+    def cube_value(self, j, prop, tj=None):
+        key = ("cube", j, tj, prop)
         if key not in self.cache:
             def get():
                 c = lib.Cube(copy.deepcopy(self.resps[j]),
-                             transforms=copy.deepcopy(self.sc["transforms"][j]),
+                             transforms=_reference_transforms(self.sc)[j if tj is None else tj],
                              population=self.sc["population"], mask_size=self.sc["mask_size"])
                 return getattr(c, prop)
             self.cache[key] = _safe(get)
@@ -243,12 +279,32 @@ class Reference:
         key = ("set", prop)
         if key not in self.cache:
             def get():
-                cs = lib.CubeSet(copy.deepcopy(self.resps),
-                                 copy.deepcopy(self.sc["transforms"]),
+                cs = lib.CubeSet(copy.deepcopy(self.resps), _reference_transforms(self.sc),
                                  self.sc["population"], self.sc["mask_size"])
                 return getattr(cs, prop)
             self.cache[key] = _safe(get)
         return self.cache[key]
+
+
+FAMILY_STEMS = ["rows_scale", "columns_scale", "row_", "column_", "table_", "population",
+                "pairwise", "smoothed", "rows_", "columns_", "scale_", "inserted", "diff_",
+                "derived", "payload", "unweighted", "share", "mean", "zscore", "pval",
+                "residual", "min_base", "counts", "weighted"]
+
+
+def families(outs):
+    """Outputs grouped by name stem: members of a family share intermediate results."""
+    fams = []
+    for stem in FAMILY_STEMS:
+        fam = [o for o in outs if o[0].startswith(stem)]
+        if len(fam) >= 2:
+            fams.append(fam[:8])
+    # orders and codes / labels go together (insertion ids)
+    oc = [o for o in outs if o[0] in ("row_order", "column_order", "row_codes", "column_codes",
+                                      "row_labels", "column_labels", "payload_order")]
+    if len(oc) >= 2:
+        fams.append(oc)
+    return fams or [outs[:4]]
 
 
 def read_output(part, out):
@@ -316,9 +372,9 @@ class PurityMachine(RuleBasedStateMachine):
         self.history = []
 
     # ---- construction
-    @rule(j=st.integers(0, 3), form=st.sampled_from(FORMS))
-    def new_cube(self, j, form):
-        step = ["new_cube", j, form]
+    @rule(j=st.integers(0, 3), form=st.sampled_from(FORMS), tj=st.integers(0, 3))
+    def new_cube(self, j, form, tj):
+        step = ["new_cube", j, form, tj]
         self.history.append(step)
         apply_step(self.sc, self.shared, self.objects, step)
         self.shared_builds += 1
@@ -343,6 +399,18 @@ class PurityMachine(RuleBasedStateMachine):
             raise Failure(problem)
 
     @precondition(lambda self: len(self.objects) > 0)
+    @rule(o=st.integers(0, 7), k=st.integers(0, 5), fam=st.integers(0, 40),
+          perm=st.integers(0, 10 ** 6))
+    def read_family(self, o, k, fam, perm):
+        """Read a whole family of related outputs (shared intermediates) in a drawn order."""
+        step = ["read_family", o, k, fam, perm]
+        self.history.append(step)
+        self.reads += 4
+        problem = apply_step(self.sc, self.shared, self.objects, step, self.ref)
+        if problem:
+            raise Failure(problem)
+
+    @precondition(lambda self: len(self.objects) > 0)
     @rule(o=st.integers(0, 7), p=st.integers(0, 40))
     def read_container(self, o, p):
         step = ["read_container", o, p]
@@ -359,8 +427,30 @@ def execute_setup(sc):
         "dict": resps,
         "json": [json.dumps(r) for r in resps],
         "envelope": [{"value": r} for r in resps],   # wraps the SAME dict objects
-        "tx": copy.deepcopy(sc["transforms"]),
+        "tx": _shared_transforms(sc),
     }
+
+
+def _shared_transforms(sc):
+    txs = copy.deepcopy(sc["transforms"])
+    if sc.get("alias_insertions"):
+        for tx in txs:
+            r, c = tx.get("rows_dimension"), tx.get("columns_dimension")
+            if r and c and "insertions" in r and "insertions" in c:
+                # one list object serves both dimensions (ids valid for either are kept)
+                c["insertions"] = r["insertions"]
+    return txs
+
+
+def _reference_transforms(sc):
+    """What the shared transforms MEAN: equal content, no shared sub-objects."""
+    txs = copy.deepcopy(sc["transforms"])
+    if sc.get("alias_insertions"):
+        for tx in txs:
+            r, c = tx.get("rows_dimension"), tx.get("columns_dimension")
+            if r and c and "insertions" in r and "insertions" in c:
+                c["insertions"] = copy.deepcopy(r["insertions"])
+    return txs
 
 
 def apply_step(sc, shared, objects, step, ref=None):
@@ -379,19 +469,23 @@ def apply_step(sc, shared, objects, step, ref=None):
                 [shared[form][i] for i in range(len(sc["queries"]))], shared["tx"],
                 sc["population"], sc["mask_size"])))
         else:
-            objects.append(("cube", j, lib.Cube(resp, transforms=shared["tx"][j],
-                                                population=sc["population"],
-                                                mask_size=sc["mask_size"])))
+            tj = (step[3] if len(step) > 3 else j) % len(sc["queries"])
+            if sc["kind"] != "multi":
+                tj = j
+            objects.append(("cube", (j, tj), lib.Cube(resp, transforms=shared["tx"][tj],
+                                                      population=sc["population"],
+                                                      mask_size=sc["mask_size"])))
         return None
     if op == "new_set":
         objects.append(("set", None, lib.CubeSet(shared["dict"], shared["tx"], sc["population"],
                                                  sc["mask_size"])))
         return None
-    kind, j, obj = objects[step[1] % len(objects)]
+    kind, jt, obj = objects[step[1] % len(objects)]
+    j, tj = jt if isinstance(jt, tuple) else (jt, None)
     if op == "read_container":
         if kind == "cube":
             prop = CUBE_PROPS[step[2] % len(CUBE_PROPS)]
-            want = ref.cube_value(j, prop)
+            want = ref.cube_value(j, prop, tj)
         else:
             prop = SET_PROPS[step[2] % len(SET_PROPS)]
             want = ref.set_value(prop)
@@ -406,8 +500,9 @@ def apply_step(sc, shared, objects, step, ref=None):
         jj = j
     else:
         jj = step[2] % len(sc["queries"])
+        tj = None
         parts = _safe(lambda: [ps[jj] for ps in obj.partition_sets])
-    nref = ref.n_partitions(jj)
+    nref = ref.n_partitions(jj, tj)
     if isinstance(parts, Raised) or isinstance(nref, Raised):
         if not deep_equal(parts if isinstance(parts, Raised) else None,
                           nref if isinstance(nref, Raised) else None):
@@ -420,8 +515,27 @@ def apply_step(sc, shared, objects, step, ref=None):
     k = step[2] % len(parts)
     part = parts[k]
     outs = outputs_for(part)
+    if op == "read_family":
+        fams = families(outs)
+        fam = fams[step[3] % len(fams)]
+        order = list(range(len(fam)))
+        # deterministic permutation from the drawn integer (Lehmer code)
+        code, seq = step[4], []
+        while order:
+            code, r = divmod(code, len(order))
+            seq.append(order.pop(r))
+        for i in seq:
+            out = fam[i]
+            want = ref.value(jj, k, out, tj)
+            got = _safe(lambda: read_output(part, out))
+            if not deep_equal(got, want):
+                return ("cube %d partition %d %s%s = %s after this history (family read), "
+                        "but %s on a fresh evaluation of pristine copies" % (
+                            jj, k, out[0], "" if out[1] is None else tuple(out[1]),
+                            short(got), short(want)))
+        return None
     out = outs[step[3] % len(outs)]
-    want = ref.value(jj, k, out)
+    want = ref.value(jj, k, out, tj)
     for attempt in range(2 if step[4] else 1):
         got = _safe(lambda: read_output(part, out))
         if not deep_equal(got, want):
